@@ -7,5 +7,5 @@ Extraction Blacklist List String Nat.
 Separate Extraction
   BinInt.Z.add BinInt.Z.compare BinNat.N.add
   TableSM.plan_compaction
-  Catalogue.s_column_name Catalogue.s_column_names
+  Catalogue.s_column_name
   WalSM.run_h WalSM.init CrashSM.run_effects.
